@@ -102,7 +102,7 @@ def gen_messages(rng, specs, tier):
     samples = [b"P=7", b"P=12", b"Q?", b"S 1 2", b"\x015", b"A", b"B", b"7", b"42", "é3".encode(), b"\xe9"]
     for s in samples:
         derived += [s, s[:-1], s + b"x", b" " + s + b"\r\n", s + s, s.lower(), s[:1] + b"\xff" + s[1:], b"\xc3" + s, s + b"\x80"]
-    return msgs, derived
+    return msgs, [d for d in derived if d]
 
 
 class FakeWriter:
